@@ -1895,7 +1895,7 @@ class Pipeline:
             pipeline.drop(f=f)
 
         if inputs is not None:
-            new_root_args = set(pipeline.topological_generations.root_args)
+            new_root_args = set(pipeline.topological_generations.root_args) - set(pipeline.defaults)
             if not new_root_args.issubset(inputs):
                 outputs = {f.output_name for f in pipeline.functions}
                 msg = (
